@@ -28,12 +28,12 @@ def replay_case(case):
 
 def finish(ctx, merged):
     c = merged["counters"]
-    need = ["discard_yes", "discard_no"] if PROPERTY == "C02" else ["pareto_yes", "pareto_no", "useful_yes", "useful_no"]
+    need = ["discard_yes", "discard_no", "auer_het_discard_yes", "auer_het_discard_no"] if PROPERTY == "C02" else ["pareto_yes", "pareto_no", "useful_yes", "useful_no"]
     from vmc import stepmc
     per_alg = []
     for alg in stepmc.ALGS:
         for k in need:
-            if k.startswith("useful") and stepmc.family(alg) != "paveba":
+            if k.startswith("auer_het") or (k.startswith("useful") and stepmc.family(alg) != "paveba"):
                 continue
             per_alg.append(f"{alg}:{k}")
     missing = [k for k in need + per_alg if not c.get(k)]
